@@ -50,26 +50,27 @@ impl<C: Cursor> Cursor for ConcatenatingCursor<C> {
         let mut left = 0usize;
         let mut right = self.cursors.len() - 1;
 
+        // Binary search for the first child whose last key is at or after the target.
         while left < right {
-            let mut mid = (left + right) / 2;
+            let pivot = (left + right) / 2;
+            let mut mid = pivot;
             self.reposition(mid)?;
             self.cursors[self.position].seek_to_last()?;
             self.cursors[self.position].prev()?;
+            // Walk down over empty children.
             while mid > left && self.cursors[self.position].key().is_none() {
                 mid -= 1;
                 self.reposition(mid)?;
                 self.cursors[self.position].seek_to_last()?;
                 self.cursors[self.position].prev()?;
             }
-            if mid == left {
-                break;
-            }
-            // SAFETY(rescrv):  We have a loop invariant above that goes until is_some or the
-            // conditional right above us.
-            if self.cursors[self.position].key().unwrap() >= kref {
-                right = mid;
-            } else {
-                left = mid + 1;
+            match self.cursors[self.position].key() {
+                Some(last) if last >= kref => {
+                    right = mid;
+                }
+                _ => {
+                    left = pivot + 1;
+                }
             }
         }
         self.reposition(left)?;
